@@ -4,6 +4,7 @@ package main
 import (
 	"bytes"
 	"encoding/json"
+	"encoding/xml"
 	"fmt"
 	"os"
 	"os/exec"
@@ -280,7 +281,7 @@ func dedupSchema(d *xDoc) (removed []string) {
 
 func main() {
 	c := vk.Init("C12")
-	c.Rule("programs = schemas run through cmd/fixgen built from the working tree: the two shipped schemas (source/fix44.xml; generator/testdata/fix.4.4.xml with its deliberate duplicate removed) and schemas derived by a seeded mutator (remove/reorder/add/rename/renumber members and fields, remove messages, toggle required, change a type's cast, introduce duplicate field numbers or message types), each with a relative, nested or absolute output directory. Per accepted schema three stages: (1) go build of the emitted package; (2) every constant, constructor signature, accessor signature, accessor item index and member list read back with go/parser and compared with the harness's own XML reader; (3) a behavioural driver derived from the XML (not from the emitted code) executed against the compiled package: each setter puts exactly its own tag=value on the wire, getters return it, all-populated wire order = schema order, populating constructors carry exactly the required members, group AddEntry/Entries round-trip, BeginString/MsgType. Plus byte-identical regeneration, identical output across output directories, rejection of duplicate numbers/msgtypes, and tests/fix44 vs fresh generation as declaration multisets. distinct = distinct schema texts; non-trivial = differs from a shipped schema by at least one mutation")
+	c.Rule("programs = schemas run through cmd/fixgen built from the working tree: the two shipped schemas (source/fix44.xml; generator/testdata/fix.4.4.xml with its deliberate duplicate removed) and schemas derived by a seeded mutator (remove/reorder/add/rename/renumber members and fields, remove messages, toggle required, change a type's cast, introduce duplicate field numbers or message types, add a repeating group at nesting depth 3), each with a relative, nested or absolute output directory. Per accepted schema three stages: (1) go build of the emitted package; (2) every constant, constructor signature, accessor signature, accessor item index and member list read back with go/parser and compared with the harness's own XML reader; (3) a behavioural driver derived from the XML (not from the emitted code) executed against the compiled package: each setter puts exactly its own tag=value on the wire, getters return it, all-populated wire order = schema order, populating constructors carry exactly the required members, group AddEntry/Entries round-trip, BeginString/MsgType. Plus byte-identical regeneration, identical output across output directories, rejection of duplicate numbers/msgtypes, and tests/fix44 vs fresh generation as declaration multisets. distinct = distinct schema texts; non-trivial = differs from a shipped schema by at least one mutation")
 	c.Assume("translation validation by execution on sampled schemas; the harness's XML reader and type-mapping reader are the trusted base; mutations never touch the fields the session pipelines' typed interfaces depend on")
 	work := c.WorkDir
 	if work == "" {
@@ -377,6 +378,45 @@ func main() {
 			cases = append(cases, &caseT{id: fmt.Sprintf("reject-%d-msgtype", bi), doc: d, types: tm, typeOrder: to, outDir: "./rej", reject: true,
 				muts: []mutation{{"duplicate-msgtype", "last message shares the msgtype of the first"}}})
 		}
+	}
+	// a repeating group added at nesting depth 3 (inside a group that is itself inside a group): the shipped
+	// reference schema only goes to depth 2
+	for bi, b := range bases {
+		d, tm, to := clone(b)
+		var host *xMember
+		var hostPath string
+		var find func(ms []*xMember, depth int, path string)
+		find = func(ms []*xMember, depth int, path string) {
+			for _, m := range ms {
+				if host != nil {
+					return
+				}
+				nd := depth
+				if m.XMLName.Local == "group" {
+					nd = depth + 1
+					if nd == 2 {
+						host, hostPath = m, path+">"+m.Name
+						return
+					}
+				}
+				find(m.Kids, nd, path+">"+m.Name)
+			}
+		}
+		for _, m := range d.Messages {
+			if host == nil {
+				find(m.Kids, 0, m.Name)
+			}
+		}
+		if host == nil {
+			continue
+		}
+		d.Fields = append(d.Fields, &xField{Number: "28001", Name: "NoDeepNotes", Type: "NUMINGROUP"}, &xField{Number: "28002", Name: "DeepNoteText", Type: "STRING"}, &xField{Number: "28003", Name: "DeepNoteQty", Type: "INT"})
+		host.Kids = append(host.Kids, &xMember{XMLName: xml.Name{Local: "group"}, Name: "NoDeepNotes", Required: "N", Kids: []*xMember{
+			{XMLName: xml.Name{Local: "field"}, Name: "DeepNoteText", Required: "Y"},
+			{XMLName: xml.Name{Local: "field"}, Name: "DeepNoteQty", Required: "N"},
+		}})
+		cases = append(cases, &caseT{id: fmt.Sprintf("depth3-group-%d", bi), doc: d, types: tm, typeOrder: to, outDir: "./deep" + strconv.Itoa(bi),
+			muts: []mutation{{"add-group-at-depth-3", "added group NoDeepNotes inside " + hostPath}}})
 	}
 	nDerived := c.Pick(10, 150)
 	for i := 0; i < nDerived; i++ {
